@@ -141,7 +141,7 @@ Definition ptag (d : pkd) : N :=
   | PJwtHmac _ _ => 26 | PJwtEcdsa false _ _ => 27 | PJwtEcdsa true _ _ => 28 | PJwtRsaPub _ _ _ => 29
   | PJwtRsaPriv _ _ _ _ _ _ _ _ => 30 | PJwtMlDsaPub => 31 | PMlDsaPub => 32
   | PSlhDsa false => 33 | PSlhDsa true => 34 | PMlDsaPriv => 35 | PJwtMlDsaPriv => 36
-  | PComposite false _ _ _ => 37 | PComposite true _ _ _ => 38
+  | PComposite false _ _ => 37 | PComposite true _ _ => 38
   | PFallback _ => 0
   end.
 
@@ -247,10 +247,10 @@ Qed.
 Lemma parse_key_tag kd p i d : parse_key kd p i = Ok d -> ptag d = url_tag (kd_url kd).
 Proof.
   unfold Untrusted.parse_key. destruct (url_is kd u_composite_pub) eqn:C1.
-  - intros H. apply parse_composite_kind in H. destruct H as (_ & cp & pt & seed & ->).
+  - intros H. apply parse_composite_kind in H. destruct H as (_ & pt & seed & ->).
     unfold url_is in C1. apply beq_eq in C1. rewrite C1. vm_compute. reflexivity.
   - destruct (url_is kd u_composite_priv) eqn:C2.
-    + intros H. apply parse_composite_kind in H. destruct H as (_ & cp & pt & seed & ->).
+    + intros H. apply parse_composite_kind in H. destruct H as (_ & pt & seed & ->).
       unfold url_is in C2. apply beq_eq in C2. rewrite C2. vm_compute. reflexivity.
     + intros H. eapply parse_key_base_tag; eassumption.
 Qed.
